@@ -29,16 +29,29 @@ def _norm_compare(e: ast.Compare):
     return canon_compare(e)
 
 
+def _parse(text: str):
+    """Parse a formula; `$N` parameter placeholders (not Python) are carried through as names."""
+    import re
+    e = ast.parse(re.sub(r'\$(\d+)', r'_DOLLAR_\1', text), mode='eval').body
+    for n in ast.walk(e):
+        if isinstance(n, ast.Name) and n.id.startswith('_DOLLAR_'):
+            n.id = '$' + n.id[len('_DOLLAR_'):]
+    return e
+
+
 class Worlds:
-    def __init__(self, g: CFG, extra_atoms=(), resolve=True):
+    def __init__(self, g: CFG, extra_atoms=(), resolve=True, symbolic=False):
+        """symbolic=True: tests are written out with cfg.symbolic (every local replaced by its defining expression,
+        parameters $N) instead of alias resolution only - for guards that test locals bound to lookups / attribute reads."""
         self.g = g
         self.resolve = resolve
+        self.symbolic = symbolic
         self.atoms: list[str] = []
         for n in g.nodes:
             if n.kind == 'branch' and n.label in (True, False):
                 self._collect(self._test_of(n))
         for t in extra_atoms:
-            self._collect(ast.parse(t, mode='eval').body)
+            self._collect(_parse(t))
         if len(self.atoms) > MAX_ATOMS:
             raise AnalysisError(f'pathcond: {len(self.atoms)} atoms in {g.fn.name}, limit {MAX_ATOMS}')
         self.k = len(self.atoms)
@@ -53,6 +66,8 @@ class Worlds:
         self._cond = None
 
     def _test_of(self, n):
+        if self.symbolic:
+            return self.g.symbolic(n, n.test)
         if not self.resolve:
             return n.test
         r = self.g.origin_expr(n, n.test, tests=True)
@@ -77,7 +92,7 @@ class Worlds:
     def mask(self, e) -> int:
         """Worlds in which expression e (ast or source text) is true."""
         if isinstance(e, str):
-            e = ast.parse(e, mode='eval').body
+            e = _parse(e)
         if isinstance(e, ast.Constant) and isinstance(e.value, bool):
             return self.all if e.value else 0
         if isinstance(e, ast.UnaryOp) and isinstance(e.op, ast.Not):
@@ -101,7 +116,7 @@ class Worlds:
         return m
 
     def has_atom(self, text: str) -> bool:
-        e = ast.parse(text, mode='eval').body
+        e = _parse(text)
         if isinstance(e, ast.Compare) and len(e.ops) == 1:
             return _norm_compare(e)[0] in self._atom_mask
         return canon_atom(text) in self._atom_mask
@@ -217,10 +232,10 @@ class Worlds:
 _cache = {}
 
 
-def worlds_of(g: CFG, extra_atoms=()) -> Worlds:
-    key = (id(g), tuple(extra_atoms))
+def worlds_of(g: CFG, extra_atoms=(), symbolic=False) -> Worlds:
+    key = (id(g), tuple(extra_atoms), symbolic)
     w = _cache.get(key)
     if w is None:
-        w = Worlds(g, extra_atoms)
+        w = Worlds(g, extra_atoms, symbolic=symbolic)
         _cache[key] = w
     return w
